@@ -222,4 +222,12 @@ def btProblem (nrGens : Nat) (expandedRels : List (List Int)) (maxRows : Nat) :
 def cosetTables (nrGens : Nat) (rels : List (List Int)) (maxRows : Nat) (fuel : Nat) : List (Outcome Table) :=
   BT.run (btProblem nrGens (expandedRelatorSet rels) maxRows) fuel
 
+/-- a fuel that always exhausts the search tree of `coset_tables`: every node has at most
+    `max maxRows 1` children (one per candidate row for the first free slot) and every child
+    fills one of the `maxRows · 2·nrGens` slots of the first `maxRows` rows
+    (`Proofs/LowIndexFuel.lean`: `cosetTables_fuel_adequate`).  The iterator model stops as soon
+    as its stack is empty, so the size of this number costs nothing. -/
+def searchFuel (nrGens maxRows : Nat) : Nat :=
+  (max maxRows 1 + 1) ^ (maxRows * (2 * nrGens) + 1)
+
 end DSymVerif.Cosets
